@@ -6,6 +6,23 @@ Run by tools/translate_tables.py (globals: repo, outdir, emit, die, src, cz, cst
 import ast as _ast, os as _os
 
 
+def _avoid_text(f, node):
+    """source text of the `avoid` argument, up to spelling: a local name bound exactly once in the function stands for the
+    expression it is bound to (one hop), and `<p>.namespace` with <p> a parameter of the function annotated `Module` (or
+    named `module`) is written `module.namespace`, whatever the parameter is called"""
+    if isinstance(node, _ast.Name):
+        binds = [n for n in _ast.walk(f) if isinstance(n, (_ast.Assign, _ast.AnnAssign)) and n.value is not None and any(
+            isinstance(t, _ast.Name) and t.id == node.id for t in (n.targets if isinstance(n, _ast.Assign) else [n.target]))]
+        params = [a.arg for a in f.args.args + f.args.kwonlyargs + f.args.posonlyargs]
+        if len(binds) == 1 and node.id not in params:
+            node = binds[0].value
+    if isinstance(node, _ast.Attribute) and node.attr == "namespace" and isinstance(node.value, _ast.Name):
+        for a in f.args.args + f.args.kwonlyargs + f.args.posonlyargs:
+            if a.arg == node.value.id and (a.arg == "module" or (a.annotation is not None and _ast.unparse(a.annotation) in ("Module", "h.Module"))):
+                return "module.namespace"
+    return _ast.unparse(node)
+
+
 def _c05_sites():
     known = {("portrefs", "create_source"): "ResolvePortRefs", ("portrefs", "replace_noconn"): "ResolvePortRefs",
              ("portrefs", "noconn_array_bundle"): "ResolvePortRefs",
@@ -28,7 +45,7 @@ def _c05_sites():
                     kws = {k.arg: k.value for k in n.keywords}
                     if len(n.args) > 1:
                         die(f"{fn}:{f.name}: flatname called with positional arguments beyond `segments`")
-                    calls.append((stem, f.name, _ast.unparse(kws["avoid"]) if "avoid" in kws else ""))
+                    calls.append((stem, f.name, _avoid_text(f, kws["avoid"]) if "avoid" in kws else ""))
                 if n.func.attr == "add" and isinstance(n.func.value, _ast.Name) and n.func.value.id == "module":
                     adders.add((stem, f.name))
     # A naming site is identified by the PASS (file): helpers may be extracted or renamed inside a pass without changing
